@@ -201,6 +201,8 @@ class Ctx:
         cov.setdefault("distinct_nontrivial", self.nt)
         cov.setdefault("rule", self.rule)
         cov.setdefault("samples", _jsonable(self.samples))
+        if not isinstance(cov["samples"], list):
+            cov["samples"] = [cov["samples"]]
         cov["exhaustive"] = bool(self.exhaustive)
         if self.caps:
             cov["caps_hit"] = self.caps
